@@ -131,6 +131,23 @@ def cases(rng, which, count):
                 cols = [rng.choice(["A" * n, "C" * n, "".join(rng.choice("ACGT-") for _ in range(n))]) for _ in range(L)]
                 cr = [("s%d" % i, "".join(c[i] for c in cols)) for i in range(n)]
                 yield Case("cli_lib", [esc(fasta(cr)), "compress"], True, "cli-compress")
+            elif w == "dedup-files":
+                # the files next to the alignment: groups of identical rows (`dedup -l`), pattern weights (`compress --weight-out`)
+                rr = rows + [("d%d" % i, rng.choice(rows)[1]) for i in range(rng.randint(0, 4))]
+                if rng.random() < 0.5:
+                    k = rng.randrange(len(rr))
+                    rr.append(("g", rr[k][1].replace("N", "-")))
+                rng.shuffle(rr)
+                nag = ["--n-as-gap"] if rng.random() < 0.5 else []
+                if rng.random() < 0.5:
+                    argv = ["dedup", "-l", "log.txt"] + nag
+                else:
+                    argv = ["dedup"] + nag + ["-l", "log.txt"]
+                yield Case("cli_libf", [esc(fasta(rr)), "_"] + argv, True, "cli-dedup-log")
+                cols = [rng.choice(["A" * n, "C" * n, "".join(rng.choice("ACGT-") for _ in range(n))]) for _ in range(L)]
+                cols += [rng.choice(cols) for _ in range(rng.randint(0, 6))]
+                cr = [("s%d" % i, "".join(c[i] for c in cols)) for i in range(n)]
+                yield Case("cli_libf", [esc(fasta(cr)), "_", "compress", "--weight-out", "w.txt"], True, "cli-compress-weights")
             elif w == "sort":
                 rr = list(rows)
                 rng.shuffle(rr)
@@ -232,6 +249,34 @@ def cases(rng, which, count):
                 if ch not in ("GAP", "MAJ") and rng.random() < 0.3:
                     fl.append("--reverse")
                 yield Case("cli_lib", [st, "clean", "sites", "-c", cut] + fl, True, "cli-clean-sites")
+            elif w == "clean-files":
+                # the position files of `clean sites`: remaining sites, removed sites, or both
+                cut = rng.choice(["0", "0.25", "0.5", "0.75", "1", "0.1", "0.3"])
+                fl = []
+                ch = rng.choice(["GAP", "GAP", "-", "N", "A", "MAJ", "-N", "AC", "Nn"])
+                if ch != "GAP":
+                    fl += ["--char", ch]
+                if rng.random() < 0.3:
+                    fl.append("--ends")
+                if rng.random() < (0.3 if ch != "GAP" and "-" not in ch else 0.05):
+                    fl.append("--ignore-gaps")         # refused together with gaps among the characters
+                if rng.random() < (0.3 if "N" not in ch and "n" not in ch else 0.05):
+                    fl.append("--ignore-n")
+                if ch not in ("GAP", "MAJ", "-") and rng.random() < 0.3:
+                    fl.append("--ignore-case")
+                if ch not in ("GAP", "MAJ", "-") and rng.random() < 0.3:
+                    fl.append("--reverse")
+                k = rng.random()
+                if k < 0.5:
+                    fl += ["--positions", "kept.txt", "--positions-rm", "rm.txt"]
+                elif k < 0.7:
+                    fl += ["--positions-rm", "a.txt", "--positions", "b.txt"]
+                elif k < 0.85:
+                    fl += ["--positions", "kept.txt"]
+                else:
+                    fl += ["--positions-rm", "rm.txt"]
+                gr = [(nm, "".join(rng.choice(SYM + "-" * rng.choice([0, 6])) for _ in range(L))) for nm, _ in rows]
+                yield Case("cli_libf", [esc(fasta(gr)), "_", "clean", "sites", "-c", cut] + fl, True, "cli-clean-sites-positions")
 
 
 def shrink(c):
